@@ -159,7 +159,7 @@ func cmdWalk(args []string) {
 	}
 	runPath := func(path []edge) {
 		t := newT()
-		h := pr.History{Kind: "testdrv"}
+		h := pr.History{Kind: "testdrv", Events: []string{}}
 		for _, e := range path {
 			h.Steps = append(h.Steps, pr.Step{Fn: e.fn, M: e.m})
 		}
